@@ -379,9 +379,26 @@ class Run:
                 if still:
                     continue
             if known and not any(k.get("class") for k in known) and (info["open"] or info["unknown"]):
-                # finding identified by a concrete witness only (no class predicate): suppress only if that witness still fails
-                # and the falsifier finds no failing input other than the listed witnesses
-                pass
+                # finding identified by a concrete witness only (no class predicate): suppressed only if that witness still fails
+                # and the falsifier (which skips listed witnesses) finds no other failing input for this clause
+                wit_ok = []
+                for k in known:
+                    try:
+                        if self.witness_check is None or self.witness_check(k):
+                            wit_ok.append(k)
+                    except Exception:
+                        self.notes.append("witness check crashed: " + traceback.format_exc()[-500:])
+                other = (None, False)
+                if falsifier is not None:
+                    try:
+                        other = falsifier(g, info)
+                    except Exception:
+                        self.notes.append("falsifier crashed on " + g + ": " + traceback.format_exc()[-800:])
+                if wit_ok and not other[1]:
+                    for k in wit_ok:
+                        print(f"KNOWN-FINDING: property={self.pid} {k['what']}")
+                        self.known.append(k)
+                    continue
             replay = None
             found_input = False
             if falsifier is not None:
